@@ -511,7 +511,7 @@ impl Prop for C11 {
                "assumptions": ["the ice flag and font name a file carries are those of the document (ice mode, name of font 0), which is what the writer stores", "text fields are compared with trailing blanks/NULs stripped (padding)"]})
     }
     fn total(&mut self, ctx: &Ctx) -> u64 {
-        ctx.tier.pick(6_000, 400_000)
+        ctx.tier.pick(36_000, 400_000)
     }
     fn run_case(&mut self, ctx: &mut Ctx, k: u64) {
         let case = self.case_for(ctx, k);
